@@ -13,6 +13,8 @@ package main
 //	core/provider/queue.go                          DefaultAmmoQueueSize, NewAmmoQueue
 //	core/provider/decoder.go                        DecodeProvider.Run: loop condition, EOF / Done / limit results, deferred close
 //	lib/ioutil2/reader.go                           NewMultiPassReader (passes == 1), MultiPassReader.Read (what happens at EOF)
+//	core/engine/engine.go                           awaitRun: when the provider's result makes the pool fail
+//	lib/errutil/errutil.go                          IsCtxError
 //
 // into lean/Pandora/Gen/ProvLoops.lean over the vocabulary of Pandora/Model/C08Mach.lean (`Act`, `RunRes`, `ScanRes`).
 // Reading of Go used here (trusted, see notes/C08.md):
@@ -498,8 +500,9 @@ func (x *pl) requireMin0(structName string, fields ...string) {
 
 // plLoadAll loads all the packages of the area with ONE packages.Load call (shared dependency graph).
 func plLoadAll(paths ...string) func(string) *packages.Package {
+	// dependencies are type-checked from export data (no NeedDeps): only the listed packages are parsed
 	cfg := &packages.Config{Mode: packages.NeedName | packages.NeedSyntax | packages.NeedTypes | packages.NeedTypesInfo |
-		packages.NeedFiles | packages.NeedImports | packages.NeedDeps, Dir: repo, BuildFlags: []string{"-tags=verif"}}
+		packages.NeedFiles | packages.NeedImports, Dir: repo, BuildFlags: []string{"-tags=verif"}}
 	pkgs, err := packages.Load(cfg, paths...)
 	if err != nil {
 		fmt.Fprintln(os.Stderr, "load:", err)
@@ -536,6 +539,8 @@ func provloopsExtra(t *tr) string {
 		"github.com/yandex/pandora/components/providers/grpc/grpcjson",
 		"github.com/yandex/pandora/core/provider",
 		"github.com/yandex/pandora/lib/ioutil2",
+		"github.com/yandex/pandora/core/engine",
+		"github.com/yandex/pandora/lib/errutil",
 	)
 
 	// ------------------------------------------------------------ components/providers/http/provider
@@ -700,6 +705,49 @@ func provloopsExtra(t *tr) string {
 		p := load("github.com/yandex/pandora/lib/ioutil2")
 		x := &pl{t: t, pkg: p, ctx: "ioutil2"}
 		b.WriteString(x.multiPass())
+	}
+	// ------------------------------------------------------------ engine awaitRun (provider case) + errutil.IsCtxError
+	{
+		p := load("github.com/yandex/pandora/core/engine")
+		x := &pl{t: t, pkg: p, ctx: "engine.awaitRun", vars: map[string]string{"errutil.IsCtxError(ah.runCtx, err)": "isCtxError"}}
+		cond := ""
+		if fd := plMethod(p, "runAwaitHandle", "awaitRun"); fd != nil {
+			ast.Inspect(fd, func(n ast.Node) bool {
+				cc, ok := n.(*ast.CommClause)
+				if !ok || cc.Comm == nil || x.src(cc.Comm) != "err := <-ah.providerErr" {
+					return true
+				}
+				for _, st := range cc.Body {
+					is, ok := st.(*ast.IfStmt)
+					if !ok || is.Else != nil || len(is.Body.List) != 1 {
+						continue
+					}
+					if strings.HasPrefix(x.src(is.Body.List[0]), "ah.onErrAwaited(errors.WithMessage(err, \"provider failed\"))") {
+						cond = x.expr(is.Cond)
+					}
+				}
+				return false
+			})
+		}
+		if cond == "" {
+			cond = x.fail(p.Syntax[0], "awaitRun: no `case err := <-ah.providerErr: … if COND { ah.onErrAwaited(…\"provider failed\") }`")
+		}
+		fmt.Fprintf(&b, "/-- regenerated from `core/engine/engine.go` awaitRun, `case err := <-ah.providerErr`: the pool fails with \"provider failed\" when …\n(`isCtxError` = errutil.IsCtxError(ah.runCtx, err)) -/\ndef providerFailsPool (isCtxError : Prop) : Prop := %s\n\n", cond)
+		ep := load("github.com/yandex/pandora/lib/errutil")
+		ex := &pl{t: t, pkg: ep, ctx: "errutil.IsCtxError", vars: map[string]string{"err == nil": "errNil", "ctx.Err() == errors.Cause(err)": "ctxErrIsCause"}}
+		body := ""
+		if fd := plMethod(ep, "", "IsCtxError"); fd != nil && len(fd.Body.List) == 2 {
+			is, ok1 := fd.Body.List[0].(*ast.IfStmt)
+			ret, ok2 := fd.Body.List[1].(*ast.ReturnStmt)
+			if ok1 && ok2 && is.Else == nil && len(is.Body.List) == 1 && ex.src(is.Body.List[0]) == "return true" && len(ret.Results) == 1 {
+				body = "if " + ex.expr(is.Cond) + " then True else " + ex.expr(ret.Results[0])
+			}
+		}
+		if body == "" {
+			body = ex.fail(ep.Syntax[0], "IsCtxError does not have the shape `if COND { return true }; return E`")
+		}
+		fmt.Fprintf(&b, "/-- regenerated from `lib/errutil/errutil.go` IsCtxError (`ctxErrIsCause` = `ctx.Err() == errors.Cause(err)`) -/\n"+
+			"def isCtxError (errNil ctxErrIsCause : Prop) [Decidable errNil] : Prop := %s\n\n", body)
 	}
 	return b.String()
 }
@@ -1078,6 +1126,36 @@ func (x *pl) decodeRun(fd *ast.FuncDecl) string {
 	if !mp {
 		x.fail(fd, "decoder source is not ioutil2.NewMultiPassReader(source, p.conf.Passes)")
 	}
+	// if multipass, ok := multipassReader.(*ioutil2.MultiPassReader); ok { passStart := 0; multipass.SetProgress(func() bool { progress := E; passStart = ammoNum; return progress }) }
+	progress := ""
+	for _, s := range fd.Body.List {
+		is, ok := s.(*ast.IfStmt)
+		if !ok || is.Init == nil || x.src(is.Init) != "multipass, ok := multipassReader.(*ioutil2.MultiPassReader)" || x.src(is.Cond) != "ok" {
+			continue
+		}
+		if len(is.Body.List) != 2 || x.src(is.Body.List[0]) != "passStart := 0" {
+			continue
+		}
+		es, ok := is.Body.List[1].(*ast.ExprStmt)
+		if !ok {
+			continue
+		}
+		call, ok := es.X.(*ast.CallExpr)
+		if !ok || x.src(call.Fun) != "multipass.SetProgress" || len(call.Args) != 1 {
+			continue
+		}
+		fl, ok := call.Args[0].(*ast.FuncLit)
+		if !ok || len(fl.Body.List) != 3 || x.src(fl.Body.List[1]) != "passStart = ammoNum" || x.src(fl.Body.List[2]) != "return progress" {
+			continue
+		}
+		if as, ok := fl.Body.List[0].(*ast.AssignStmt); ok && len(as.Lhs) == 1 && x.src(as.Lhs[0]) == "progress" {
+			x.vars["passStart"] = "passStart"
+			progress = x.expr(as.Rhs[0])
+		}
+	}
+	if progress == "" {
+		progress = x.fail(fd, "no `multipass.SetProgress(func() bool { progress := E; passStart = ammoNum; return progress })` with passStart := 0")
+	}
 	done := ""
 	eof := ""
 	g := &guardCtx{ret: x.retSentinel("Act.ret ")}
@@ -1113,8 +1191,10 @@ func (x *pl) decodeRun(fd *ast.FuncDecl) string {
 		"/-- regenerated: what Run does when Decode returns io.EOF -/\ndef decodeOnEOF : Act Nat := %s\n\n"+
 		"/-- regenerated: loop body after a successful Decode, including the post statement (state = ammoNum) -/\n"+
 		"def decodeStep (ammoNum : Nat) : Act Nat :=\n%s\n\n"+
-		"/-- regenerated: result of the `case <-ctx.Done()` branch -/\ndef decodeDone : RunRes := %s\n\n",
-		ch == "p.OutQueue", x.expr(loop.Cond), eof, body, done)
+		"/-- regenerated: result of the `case <-ctx.Done()` branch -/\ndef decodeDone : RunRes := %s\n\n"+
+		"/-- regenerated: the progress function given to the MultiPassReader (asked at the end of every pass; `passStart` starts at 0 and is\nset to ammoNum by every call) -/\ndef decodeProgress (ammoNum passStart : Nat) : Prop := %s\n"+
+		"instance (ammoNum passStart : Nat) : Decidable (decodeProgress ammoNum passStart) := by unfold decodeProgress; exact inferInstance\n\n",
+		ch == "p.OutQueue", x.expr(loop.Cond), eof, body, done, progress)
 }
 
 // multiPass: NewMultiPassReader and MultiPassReader.Read
@@ -1141,23 +1221,35 @@ func (x *pl) multiPass() string {
 	if fd := plMethod(x.pkg, "MultiPassReader", "Read"); fd == nil {
 		x.t.errs = append(x.t.errs, "provloops: (*MultiPassReader).Read not found")
 	} else {
-		// n, err = r.rs.Read(p); if err == io.EOF { r.passesCount++; if COND { _, err = r.rs.Seek(0, io.SeekStart) } }; return
-		okShape := len(fd.Body.List) == 3 && x.src(fd.Body.List[0]) == "n, err = r.rs.Read(p)" && x.src(fd.Body.List[2]) == "return"
-		cond := ""
-		if okShape {
-			is, ok := fd.Body.List[1].(*ast.IfStmt)
-			if ok && x.src(is.Cond) == "err == io.EOF" && is.Else == nil && len(is.Body.List) == 2 && x.src(is.Body.List[0]) == "r.passesCount++" {
-				if in, ok := is.Body.List[1].(*ast.IfStmt); ok && in.Else == nil && len(in.Body.List) == 1 && x.src(in.Body.List[0]) == "_, err = r.rs.Seek(0, io.SeekStart)" {
+		// n, err = r.rs.Read(p); r.passBytes += int64(n)
+		// if err == io.EOF { r.passesCount++; fruitless := F; r.passBytes = 0; if fruitless { return }; if COND { _, err = r.rs.Seek(0, io.SeekStart) } }; return
+		x.vars["r.passBytes == 0"] = "passEmpty"
+		x.vars["r.progress != nil"] = "hasProgress"
+		x.vars["r.progress()"] = "progress"
+		cond, fruitless := "", ""
+		l := fd.Body.List
+		if len(l) == 4 && x.src(l[0]) == "n, err = r.rs.Read(p)" && x.src(l[1]) == "r.passBytes += int64(n)" && x.src(l[3]) == "return" {
+			is, ok := l[2].(*ast.IfStmt)
+			if ok && x.src(is.Cond) == "err == io.EOF" && is.Else == nil && len(is.Body.List) == 5 &&
+				x.src(is.Body.List[0]) == "r.passesCount++" && x.src(is.Body.List[2]) == "r.passBytes = 0" &&
+				x.src(is.Body.List[3]) == "if fruitless { return }" {
+				if as, ok := is.Body.List[1].(*ast.AssignStmt); ok && len(as.Lhs) == 1 && x.src(as.Lhs[0]) == "fruitless" && as.Tok == token.DEFINE {
+					fruitless = x.expr(as.Rhs[0])
+				}
+				if in, ok := is.Body.List[4].(*ast.IfStmt); ok && in.Else == nil && len(in.Body.List) == 1 && x.src(in.Body.List[0]) == "_, err = r.rs.Seek(0, io.SeekStart)" {
 					cond = x.expr(in.Cond)
 				}
 			}
 		}
-		if cond == "" {
-			cond = x.fail(fd, "Read does not have the shape `Read; if err == io.EOF { passesCount++; if COND { Seek(0, SeekStart) } }; return`")
+		if cond == "" || fruitless == "" {
+			cond = x.fail(fd, "Read does not have the shape `Read; passBytes += n; if err == io.EOF { passesCount++; fruitless := F; passBytes = 0; if fruitless { return }; if COND { Seek(0, SeekStart) } }; return`")
+			fruitless = "False"
 		}
-		fmt.Fprintf(&b, "/-- regenerated from MultiPassReader.Read: at io.EOF of the source `passesCount++`, then the source is sought to its start\n(the EOF is swallowed) when … -/\n"+
+		fmt.Fprintf(&b, "/-- regenerated from MultiPassReader.Read: at io.EOF of the source `passesCount++`; the EOF is handed on when the pass was\nfruitless (`passEmpty`: no byte was read in this pass; `hasProgress`: a progress function is set; `progress`: what it returns) … -/\n"+
+			"def mprFruitless (passEmpty hasProgress progress : Prop) : Prop := %s\n\n"+
+			"/-- … otherwise the source is sought to its start (the EOF is swallowed) when … -/\n"+
 			"def mprRewind (passesLimit passesCount : Nat) : Prop :=\n  let passesCount : Nat := passesCount + 1\n  %s\n"+
-			"instance (passesLimit passesCount : Nat) : Decidable (mprRewind passesLimit passesCount) := by unfold mprRewind; exact inferInstance\n\n", cond)
+			"instance (passesLimit passesCount : Nat) : Decidable (mprRewind passesLimit passesCount) := by unfold mprRewind; exact inferInstance\n\n", fruitless, cond)
 	}
 	return b.String()
 }
